@@ -113,6 +113,8 @@ Edits(nb) ==
   { <<[a |-> "EditNbMeta", v |-> v], [nb EXCEPT !.nbmd = v]>> : v \in 0..2 }
   \cup
   (IF nb.minor < 5 THEN { <<[a |-> "BumpMinor"], [nb EXCEPT !.minor = @ + 1]>> } ELSE {})
+  \cup
+  (IF nb.minor < 4 THEN { <<[a |-> "BumpMinor2"], [nb EXCEPT !.minor = @ + 2]>> } ELSE {})
 
 \* an edit that changes nothing is not an edit
 RealEdits(nb) == {e \in Edits(nb) : e[2] # nb}
